@@ -4,11 +4,11 @@ package worlds
 
 import (
 	"bytes"
-	"strings"
 	"errors"
 	"fmt"
 	"io"
 	"net"
+	"strings"
 	"testing/synctest"
 	"time"
 
